@@ -741,16 +741,32 @@ class Interp:
         if isinstance(node.func, ast.Attribute):
             recv = self.eval(node.func.value, fr)
             if self.dom.is_value(recv) or isinstance(recv, (Phi, Tup)):
-                r = self.dom.call("." + node.func.attr, [recv] + args, kwargs, node, self)
+                r = self._dom_call("." + node.func.attr, [recv] + args, kwargs, node)
                 if r is not NotImplemented:
                     return r
                 return Ref(f"call:{short(node, 60)}")
-        r = self.dom.call(fname, args, kwargs, node, self)
+        r = self._dom_call(fname, args, kwargs, node)
         if r is not NotImplemented:
+            # numpy's out= keyword: the result is also stored in place
+            for k in node.keywords:
+                if k.arg == "out" and isinstance(k.value, ast.Name):
+                    fr.env[k.value.id] = r
+                    self._mark_mutated(k.value, fr)
             return r
         if fname.split(".")[0] not in ("logger", "logging", "print"):
             self.unresolved_calls.append(f"{fr.fi.qual}: {short(node, 70)}")
         return Ref(f"call:{short(node, 60)}")
+
+    def _dom_call(self, fname, args, kwargs, node):
+        """Domain call, distributed over two-armed arguments."""
+        for i, a in enumerate(args):
+            if isinstance(a, Phi) and fname not in ("np.where",):
+                ra = self._dom_call(fname, args[:i] + [a.a] + args[i + 1 :], kwargs, node)
+                rb = self._dom_call(fname, args[:i] + [a.b] + args[i + 1 :], kwargs, node)
+                if ra is NotImplemented or rb is NotImplemented:
+                    return NotImplemented
+                return self._join(a.test, ra, rb)
+        return self.dom.call(fname, args, kwargs, node, self)
 
     def inline(self, callee: FuncInfo, node: ast.Call, fr: Frame, recv_path: Optional[str]):
         bound = bind_args(callee, node)
